@@ -66,11 +66,19 @@ def build_harness(race=False):
     cmd = [gobin(), "build", "-tags", "verif"]
     if race:
         cmd.append("-race")
-    cmd += ["-o", out, "./cmd/amverif"]
+    # checks may run side by side: build under a private name, then rename atomically (a
+    # process that is executing the previous binary keeps its inode)
+    tmp_out = "%s.%d" % (out, os.getpid())
+    cmd += ["-o", tmp_out, "./cmd/amverif"]
     p = subprocess.run(cmd, cwd=hdir, env=goenv(), stdout=subprocess.PIPE,
                        stderr=subprocess.STDOUT, text=True)
     if p.returncode != 0:
+        try:
+            os.remove(tmp_out)
+        except OSError:
+            pass
         raise Inconclusive("harness build failed:\n" + p.stdout[-4000:])
+    os.replace(tmp_out, out)
     return out
 
 
